@@ -86,6 +86,8 @@ func genC30(r *Rand, n int, tier string, emit func(string)) {
 		default:
 			a, b = uint64(r.Intn(1000)), uint64(r.Intn(1000000))
 		}
+		// phase-2-invalid transactions are sized and charged like valid ones
+		isValid := !(ei >= 3 && ei <= 5 && r.Chance(1, 5))
 		build := func(fee uint64, fw int) []byte {
 			body := c30Body(r, fee, fw, nOut, bodyW, widths)
 			wits := cbMap()
@@ -95,9 +97,9 @@ func genC30(r *Rand, n int, tier string, emit func(string)) {
 			case 3:
 				items = append(items, cbNull())
 			case 4:
-				items = append(items, cbBool(true), cbNull())
+				items = append(items, cbBool(isValid), cbNull())
 			default:
-				items = append(items, cbBool(true), cbNull(), cbNull())
+				items = append(items, cbBool(isValid), cbNull(), cbNull())
 			}
 			return cbArrayW(w, items...)
 		}
@@ -235,23 +237,32 @@ func runC30(op string) string {
 		mfS = "err"
 	}
 	ls := mockledger.NewLedgerStateBuilder().Build()
-	feeV, maxV := "1", "1"
-	for _, rule := range g1Rules(era) {
-		e := safeRule(rule, tx, 0, ls, pp)
-		if e == nil {
-			continue
+	before := fmt.Sprintf("%x", tx.Cbor())
+	verdict := func() string {
+		feeV, maxV := "1", "1"
+		for _, rule := range g1Rules(era) {
+			e := safeRule(rule, tx, 0, ls, pp)
+			if e == nil {
+				continue
+			}
+			var fe shelley.FeeTooSmallUtxoError
+			var me shelley.MaxTxSizeUtxoError
+			switch {
+			case errors.As(e, &fe):
+				feeV = "0"
+			case errors.As(e, &me):
+				maxV = "0"
+			case strings.HasPrefix(e.Error(), "min fee"):
+				// CalculateMinFee's overflow / negative-size error surfaced by the fee rule
+				feeV = "err"
+			}
 		}
-		var fe shelley.FeeTooSmallUtxoError
-		var me shelley.MaxTxSizeUtxoError
-		switch {
-		case errors.As(e, &fe):
-			feeV = "0"
-		case errors.As(e, &me):
-			maxV = "0"
-		case strings.HasPrefix(e.Error(), "min fee"):
-			// CalculateMinFee's overflow / negative-size error surfaced by the fee rule
-			feeV = "err"
-		}
+		return fmt.Sprintf("fee=%s max=%s", feeV, maxV)
 	}
-	return fmt.Sprintf("size=%s minfee=%s fee=%s max=%s", sizeS, mfS, feeV, maxV)
+	// validation is a function of its arguments and leaves the stored bytes alone
+	v1 := verdict()
+	if v2 := verdict(); v2 != v1 || fmt.Sprintf("%x", tx.Cbor()) != before {
+		return "IMPURE " + v1 + " then " + v2
+	}
+	return fmt.Sprintf("size=%s minfee=%s %s", sizeS, mfS, v1)
 }
